@@ -9,6 +9,7 @@ package c10
 // shared memory page; the parent reads it to attribute a dead worker to a case.
 
 import (
+	"sync"
 	"bufio"
 	"encoding/binary"
 	"encoding/json"
@@ -53,9 +54,10 @@ var textAlphabet = []byte{'0', '9', 'a', 'f', 'g', 'F', ':', '-', '.', '"', ' ',
 
 // NumCases is the number of hostile variations of a base of length n
 // (including the unmodified base itself as the last case).
-func NumCases(kind, n int) uint64 {
+func NumCases(kind int, base []byte) uint64 {
+	n := len(base)
 	if kind == kindText {
-		return uint64(n*len(textAlphabet) + n + n + 5 + 1)
+		return uint64(n*len(textAlphabet)+n+n+5+1) + uint64(len(digitRuns(base))*len(numberVals))
 	}
 	w := 0
 	if n >= 8 {
@@ -63,6 +65,49 @@ func NumCases(kind, n int) uint64 {
 	}
 	return uint64(n + byteSubs*n + len(windowVals)*w + w + 1)
 }
+
+var numberVals = []string{"-1", "63", "64", "65", "255", "256", "65536", "4294967296", "9223372036854775808", "18446744073709551615", "18446744073709551616", "99999999999999999999999999999999999999999", "1e9"}
+
+var runCache struct {
+	p    *byte
+	n    int
+	runs [][2]int
+}
+
+// digitRuns returns the [start, end) ranges of the maximal digit runs of a text (cached for the last base; the worker
+// serves many cases of one base in a row and is single-threaded per process... guarded by a mutex for the parent).
+var runMu sync.Mutex
+
+func digitRuns(base []byte) [][2]int {
+	if len(base) == 0 {
+		return nil
+	}
+	runMu.Lock()
+	defer runMu.Unlock()
+	if runCache.p == &base[0] && runCache.n == len(base) {
+		return runCache.runs
+	}
+	var runs [][2]int
+	for i := 0; i < len(base); {
+		if base[i] < '0' || base[i] > '9' {
+			i++
+			continue
+		}
+		j := i
+		for j < len(base) && base[j] >= '0' && base[j] <= '9' {
+			j++
+		}
+		// hex strings are not numbers: only runs not adjacent to a hex letter count
+		if !(i > 0 && isHexLetter(base[i-1])) && !(j < len(base) && isHexLetter(base[j])) && j-i <= 20 {
+			runs = append(runs, [2]int{i, j})
+		}
+		i = j
+	}
+	runCache.p, runCache.n, runCache.runs = &base[0], len(base), runs
+	return runs
+}
+
+func isHexLetter(b byte) bool { return b >= 'a' && b <= 'f' || b >= 'A' && b <= 'F' }
 
 // padLen: the "padded count" family replaces everything after an 8-byte window by padLen bytes of 0xFF and writes
 // padLen into the window - a length prefix that claims exactly as many elements as bytes follow, the largest count
@@ -72,7 +117,7 @@ const padLen = 1 << 17
 // Variation builds case idx of a base into scratch and describes it.
 func Variation(kind int, base []byte, idx uint64, scratch []byte) (in []byte, family, desc string) {
 	n := uint64(len(base))
-	if idx == NumCases(kind, len(base))-1 {
+	if idx == NumCases(kind, base)-1 {
 		return append(scratch[:0], base...), "base", "unmodified base"
 	}
 	if kind == kindText {
@@ -93,6 +138,16 @@ func Variation(kind int, base []byte, idx uint64, scratch []byte) (in []byte, fa
 			in = append(scratch[:0], base[:pos+1]...)
 			in = append(in, base[pos:]...)
 			return in, "text-duplicate", fmt.Sprintf("character %d duplicated", pos)
+		}
+		if j := idx - n*a - 2*n; j >= 5 {
+			// number tokens: every maximal run of digits (numbers, and quoted integer keys of JSON objects) replaced by
+			// boundary numbers - negative, just inside / at / beyond small array sizes, beyond 32 and 64 bits, exponent form
+			runs := digitRuns(base)
+			r, v := runs[(j-5)/uint64(len(numberVals))], numberVals[(j-5)%uint64(len(numberVals))]
+			in = append(scratch[:0], base[:r[0]]...)
+			in = append(in, v...)
+			in = append(in, base[r[1]:]...)
+			return in, "text-number", fmt.Sprintf("number at characters %d..%d := %s", r[0], r[1]-1, v)
 		}
 		switch idx - n*a - 2*n {
 		case 0:
